@@ -17,11 +17,12 @@ var Base EnvType
 
 // tickCtx is a context whose Done channel is closed from the k-th tick on.
 type tickCtx struct {
-	done   chan struct{}
-	closed bool
+	done     chan struct{}
+	closed   bool
+	deadline time.Time // zero: no deadline
 }
 
-func (c *tickCtx) Deadline() (time.Time, bool) { return time.Time{}, false }
+func (c *tickCtx) Deadline() (time.Time, bool) { return c.deadline, !c.deadline.IsZero() }
 func (c *tickCtx) Done() <-chan struct{}       { return c.done }
 func (c *tickCtx) Err() error {
 	if c.closed {
@@ -96,6 +97,10 @@ func Harness_cancel() {
 	prog := program("p", nest)
 	cancelAt = vrt.IntRange("k", 0, vrt.Param("maxk", 3))
 	cur = &tickCtx{done: make(chan struct{})}
+	if vrt.Bool("withdeadline") {
+		// a deadline far in the future: cancellation arrives long before it
+		cur.deadline = time.Now().Add(time.Hour)
+	}
 	ticks, afterClose = 0, 0
 	if cancelAt == 0 {
 		cur.closed = true
@@ -107,7 +112,19 @@ func Harness_cancel() {
 	vrt.Assert(cur.closed, "evaluation of a non-terminating program returned before the context was cancelled")
 	vrt.Assert(err != nil, "a cancelled evaluation returned a value instead of a timeout error")
 	_ = v
-	vrt.Assert(afterClose <= 1+nest, "evaluation went on iterating after the context had been cancelled")
+	slack := 0
+	if !cur.deadline.IsZero() {
+		// with a deadline the try body runs under a derived context that learns of the
+		// cancellation from a goroutine of package context: a few more iterations may pass
+		// until that goroutine is scheduled (bounded by the scheduler's fairness, not by the program)
+		slack = 12
+		if !vrt.Symbolic() {
+			// native replay: the real scheduler decides when that goroutine runs (wall-clock latency is outside the claim)
+			slack = 1 << 30
+		}
+	}
+	vrt.Observe("afterClose", afterClose)
+	vrt.Assert(afterClose <= 1+nest+slack, "evaluation went on iterating after the context had been cancelled")
 	vrt.Reach("end")
 }
 
